@@ -912,6 +912,11 @@ func stateFoundArrayEnd(s *Scanner) state {
 func stateEndTop(s *Scanner, c byte) state {
 	switch {
 	case s.isNewLine(c):
+		if s.hasTrailingCharacters {
+			// The schema has ended before the foreign text this line break belongs to.
+			s.found(lexeme.EndTop)
+			return scanContinue
+		}
 		s.found(lexeme.NewLine)
 		return scanContinue
 
